@@ -9,6 +9,8 @@ import (
 	"sort"
 
 	dblib "github.com/SAP/go-dblib"
+
+	"verif/harness/rt"
 )
 
 // C20 — isolation level mapping is a deterministic, consistent function.
@@ -153,6 +155,49 @@ func runC20(c *Ctx) {
 		}
 		r.Sample("backward", map[string]interface{}{"ase_level": l, "name": name, "answers_togo": len(gs), "answers_string": len(ss)})
 	}
+	// ---- backward answers do not depend on what was translated before:
+	// every history of one and two forward calls (exhaustive over -8..64),
+	// then seeded longer histories, each followed by all backward calls
+	ref := all[0]
+	history := func(calls []int) bool {
+		for _, s := range calls {
+			dblib.ASEIsolationLevelFromGo(sql.IsolationLevel(s))
+		}
+		for l := -2; l <= 8; l++ {
+			k := fmt.Sprint(l)
+			lvl := dblib.ASEIsolationLevel(l)
+			r.Eval(2)
+			if g := int(lvl.ToGo()); len(ref.ToGo[k]) == 1 && g != ref.ToGo[k][0] {
+				r.Violate(fmt.Sprintf("backward/depends-on-history/togo/ase=%d", l), fmt.Sprintf("ASEIsolationLevel(%d).ToGo() = %d after the forward calls FromGo(%v); it was %d at the start of the process", l, g, calls, ref.ToGo[k][0]), map[string]interface{}{"ase": l, "forward_calls_before": calls})
+				return false
+			}
+			if st := lvl.String(); len(ref.String[k]) == 1 && st != ref.String[k][0] {
+				r.Violate(fmt.Sprintf("backward/depends-on-history/string/ase=%d", l), fmt.Sprintf("ASEIsolationLevel(%d).String() = %q after the forward calls FromGo(%v); it was %q at the start of the process", l, st, calls, ref.String[k][0]), map[string]interface{}{"ase": l, "forward_calls_before": calls})
+				return false
+			}
+		}
+		return true
+	}
+	histories := 0
+	okH := true
+	for a := -8; a <= 64 && okH; a++ {
+		okH = history([]int{a})
+		histories++
+		for b := -8; b <= 64 && okH; b++ {
+			okH = history([]int{a, b})
+			histories++
+		}
+	}
+	hr := rt.NewRand(c.Seed, "c20/history")
+	for i := 0; i < 2000 && okH; i++ {
+		calls := make([]int, hr.Range(3, 12))
+		for j := range calls {
+			calls[j] = hr.Range(-1, 9)
+		}
+		okH = history(calls)
+		histories++
+	}
+	r.Count("forward_call_histories_before_backward_calls", int64(histories))
 	// ---- there and back
 	for _, sl := range []sql.IsolationLevel{sql.LevelReadUncommitted, sql.LevelReadCommitted, sql.LevelRepeatableRead, sql.LevelSerializable} {
 		a, err := dblib.ASEIsolationLevelFromGo(sl)
